@@ -122,6 +122,8 @@ class Engine:
         self.path_notes = []
         self.mutexes = {}
         self.timers_pending = False
+        self.syncmaps = {}
+        self.syncmaps_base = {}
 
     # ------------------------------------------------------------------ types
     def under(self, tid):
@@ -719,6 +721,7 @@ class Engine:
         self.chan_hooks = {}
         self.wg_counters = {}
         self.mutexes = {}
+        self.syncmaps = {k: dict(v) for k, v in self.syncmaps_base.items()}
         self.sched = None
         self.epoch += 1
         outcome = 'ok'
@@ -2346,6 +2349,7 @@ def run_inits(self, pkgs=None):
     self.init_mode = False
     self.handlers = strict
     self.undo = []
+    self.syncmaps_base = {k: dict(v) for k, v in self.syncmaps.items()}
     self.stats.instrs += self.path_instrs
     self.path_instrs = 0
 
@@ -2362,6 +2366,7 @@ def run_setup(self, fname):
     self.path_instrs = 0
     self.call(self.prog.funcs[fname], [])
     self.undo = []
+    self.syncmaps_base = {k: dict(v) for k, v in self.syncmaps.items()}
     self.stats.instrs += self.path_instrs
     self.path_instrs = 0
 
